@@ -27,6 +27,14 @@ COMPOSITE = {"a": {"api": "write_setting", "args": ["eco_mode_1_switch", 1]}, "b
              "x": {"api": "write_setting", "args": ["eco_mode_1_switch", 300]}, "T": {"api": "read_runtime_data"}}
 
 
+# the request blocks of the composite calls of an inverter object (call, [first, last register]); ES: the AA55 runtime request
+BLOCKS = {"ET": [("read_device_info", [35000, 35040]), ("read_device_info", [47547, 47552]), ("read_device_info", [47589, 47594]),
+                 ("read_runtime_data", [35100, 35224]), ("read_runtime_data", [37000, 37023]), ("read_runtime_data", [36000, 36044]),
+                 ("read_settings_data", [47510, 47510])],
+          "DT": [("read_device_info", [30000, 30050]), ("read_runtime_data", [30100, 30172]), ("read_runtime_data", [30195, 30209])],
+          "ES": [("read_runtime_data", None)]}
+
+
 def hist_program(fam: str, port: int, kinds: str, retries: int) -> dict:
     serial = serial_for("ETU" if fam == "ET" else "DTU")
     sim = {"regs": device_regs(fam, serial, 10000), "silent": [[F_ADDR, F_ADDR + 10]], "refused": [[R_ADDR, R_ADDR + 10]],
@@ -223,10 +231,56 @@ def run_life(prog: dict) -> dict:
             last_tr = ev["tr"]
         elif ev["e"] == "RET":
             o = ev.get("o", 0)
-            steps.append({"ok": bool(ev.get("ok")), "open": sum(1 for x in owner.values() if x == o), "tr": last_tr, "o": o,
+            steps.append({"ok": bool(ev.get("ok")) and len(steps) not in prog["case"].get("faulty_steps", ()),
+                          "open": sum(1 for x in owner.values() if x == o), "tr": last_tr, "o": o,
                           "ka": kas[o] if o < len(kas) else False})
     c = dict(prog["case"])
     c.update(steps=steps, worst=worst, status=tr["status"])
+    return c
+
+
+def mutex_program(fam: str, port: int, ka: bool, retries: int, shape: tuple, delay: int) -> dict:
+    """C06 at the level of the inverter object: several tasks use ONE object; shape = per task a string over S (answered), F (never
+    answered), R (refused); every call asks for a register of its own whose content identifies it."""
+    p = hist_program(fam, port, "", retries)
+    p["inv"][0]["keep_alive"] = ka
+    tasks, want, n = [], {}, 0
+    for ti, kinds in enumerate(shape):
+        calls = []
+        for k in kinds:
+            n += 1
+            a = {"S": S_ADDR, "F": F_ADDR, "R": R_ADDR}[k] + n % 10
+            if k == "S":
+                p["inv"][0]["sim"]["regs"][a] = 1000 + n
+            want[str(1000 * (ti + 1) + len(calls))] = [a, 1000 + n if k == "S" else -1]
+            calls.append({"api": "read_setting", "args": [f"modbus-{a}"]})
+        tasks.append(calls)
+    p["calls"], p["tasks"], p["delay"] = [], tasks, delay
+    p["case"] = {"case": "mutex", "what": f"{fam}:{port}:{'ka' if ka else 'nka'}:r{retries}:d{delay}:" + "/".join(shape), "want": want}
+    return p
+
+
+def run_mutex(prog: dict) -> dict:
+    from .inv_driver import run_program
+    tr = run_program(prog)
+    want = prog["case"]["want"]
+    wins, vals = [], []
+    last, reacted = None, False
+    for ev in tr["ev"]:
+        if ev["e"] == "SEND":
+            if last is not None:
+                wins.append({"s": ev["t"] - last, "e": 1 if reacted else 0})
+            last, reacted = ev["t"], False
+        elif ev["e"] in ("DLV", "ERR", "PEERCLOSE"):
+            reacted = True
+        elif ev["e"] == "RET":
+            ci = str(ev.get("ci"))
+            if ev.get("ok") and ci in want:
+                v = ev.get("val") or {}
+                vals.append({"got": v["l"][0] if v.get("k") == "int" and len(v.get("l", [])) == 1 and not v.get("neg") else -2,
+                             "want": want[ci][1]})
+    c = {k: v for k, v in prog["case"].items() if k != "want"}
+    c.update(wins=wins, vals=vals, status=tr["status"], T=int(round(1 / TICK)))
     return c
 
 
@@ -356,7 +410,7 @@ def run_entry(prog: dict) -> dict:
 
 
 CASE_DEFAULT = {"ka": False, "steps": [], "worst": 0, "case": "", "hist": [], "ok": False, "fam": False, "exc": "", "unhandled": False, "sends": [], "T": 0,
-                "retries": 0, "endT": 0}
+                "retries": 0, "endT": 0, "wins": [], "vals": []}
 
 
 def extend(run: Run, prop: str, tier: str, rnd: random.Random) -> None:
@@ -382,6 +436,23 @@ def extend(run: Run, prop: str, tier: str, rnd: random.Random) -> None:
                     h3 = [h for h in itertools.product(al, repeat=3) if any(k in COMPOSITE for k in h)]
                 for h in hs + h3:
                     progs.append(life_program("ET", port, ka, "".join(h)))
+        # composite reads (several requests per call) with one block of the call silent / refused (code 2 = the optional block
+        # is skipped, code 4 = the call aborts) / failing in the network, then an answered plain request and the call again
+        for fam, port in (("ET", 8899), ("ET", 502), ("DT", 8899), ("DT", 502)):
+            for ka in (True, False):
+                for api, blk in BLOCKS[fam]:
+                    for fault, code in (("silent", 0), ("refused", 2), ("refused", 4), ("oserr", 0)):
+                        p = hist_program(fam, port, "", 0)
+                        p["inv"][0]["keep_alive"] = ka
+                        p["inv"][0]["sim"].setdefault(fault, []).append(blk)
+                        if code:
+                            p["inv"][0]["sim"]["exc_code"] = code
+                        p["calls"] = [{"api": "read_device_info"}, {"api": api}, {"api": "read_setting", "args": [f"modbus-{S_ADDR}"]}, {"api": api}]
+                        # a call that met the fault (and may have swallowed it) does not count as a successful request for the
+                        # reuse clause: the transport is legitimately replaced after a failed request inside the call
+                        p["case"] = {"case": "life", "what": f"{fam}:{port}:{'ka' if ka else 'nka'}:{api}:{fault}{code}:{blk[0]}", "ka": ka,
+                                     "faulty_steps": [0, 1, 3] if api == "read_device_info" else [1, 3]}
+                        progs.append(p)
         # a second inverter object for the same inverter (same constructor arguments), own keep-alive setting
         al2 = [(0, "S"), (1, "S"), (0, "F"), (1, "F")]
         for fam, port in (("ET", 8899), ("ET", 502), ("DT", 8899), ("ES", 8899)):
@@ -392,6 +463,21 @@ def extend(run: Run, prop: str, tier: str, rnd: random.Random) -> None:
                     if len({o for o, _ in q}) == 2:
                         progs.append(life2_program(fam, port, kas, q))
         cases += engine.parallel_map("harness.checks_api", "run_life", progs, procs=16, chunk=20)
+    elif prop == "C06":
+        # several tasks on ONE inverter object: one of them runs into silence (its retries are used up) or a refusal while the
+        # others are queued behind it, then goes on with further requests
+        progs = []
+        shapes = [("FS", "S", "S"), ("FSS", "SS"), ("SF", "FS", "S"), ("RS", "S", "S"), ("FS", "FS"), ("S", "S", "S", "S"), ("FSS", "S", "SS"),
+                  ("SFS", "SSS"), ("F", "SS", "S")]
+        if not quick:
+            shapes += [tuple(x) for x in itertools.product(("F", "FS", "S", "SS", "RS", "SF"), repeat=3)]
+        for fam, port in (("ET", 8899), ("ET", 502), ("DT", 8899), ("DT", 502)):
+            for ka in (True, False):
+                for r in (0, 1, 2):
+                    for shape in shapes:
+                        for delay in (0, 2):
+                            progs.append(mutex_program(fam, port, ka, r, shape, delay))
+        cases += engine.parallel_map("harness.checks_api", "run_mutex", progs, procs=16, chunk=10)
     elif prop == "C08":
         # what the caller of the inverter API sees when the inverter refuses (exception code 2): every history of up to
         # 3 (thorough: 5) calls that contains a refusal, every family / transport
@@ -458,11 +544,6 @@ def extend(run: Run, prop: str, tier: str, rnd: random.Random) -> None:
         # composite calls of an inverter object (several requests per call): the inverter answers every block but one -
         # each request of the call in turn goes unanswered - and that request gets retries + 1 transmissions, one timeout
         # apart, whichever call issued it and wherever in the call it stands (probes of optional features included)
-        BLOCKS = {"ET": [("read_device_info", [35000, 35040]), ("read_device_info", [47547, 47552]), ("read_device_info", [47589, 47594]),
-                         ("read_runtime_data", [35100, 35224]), ("read_runtime_data", [37000, 37023]), ("read_runtime_data", [36000, 36044]),
-                         ("read_settings_data", [47510, 47510])],
-                  "DT": [("read_device_info", [30000, 30050]), ("read_runtime_data", [30100, 30172]), ("read_runtime_data", [30195, 30209])],
-                  "ES": [("read_runtime_data", None)]}
         for t, r in grid:
             for fam, port in (("ET", 8899), ("ET", 502), ("DT", 8899), ("DT", 502), ("ES", 8899)):
                 for api, blk in BLOCKS[fam]:
